@@ -164,32 +164,37 @@ func (e *executor) InsertBeacon(
 	// Compute ids outside of the lock.
 	segID := b.Segment.ID()
 
-	meta, err := e.getBeaconMeta(ctx, segID)
-	if err != nil {
-		return ret, err
-	}
-	if meta != nil {
-		// Update the beacon data if it is newer.
-		if b.Segment.Info.Timestamp.After(meta.InfoTime) {
-			if err := e.updateExistingBeacon(ctx, b, usage, meta.RowID, time.Now()); err != nil {
-				return ret, err
-			}
-			ret.Updated = 1
-			return ret, nil
+	// Look up the stored version and insert or update in ONE transaction on the
+	// write connection: concurrent inserts of the same segment must not both act
+	// on the same (stale) lookup.
+	err := db.DoInTx(ctx, e.write, func(ctx context.Context, tx *sql.Tx) error {
+		te := &executor{write: tx, read: tx, ia: e.ia}
+		meta, err := te.getBeaconMeta(ctx, segID)
+		if err != nil {
+			return err
 		}
-		return ret, nil
-	}
-	// Insert new beacon.
-	err = db.DoInTx(ctx, e.write, func(ctx context.Context, tx *sql.Tx) error {
-		return insertNewBeacon(ctx, tx, b, usage, time.Now())
+		if meta != nil {
+			// Update the beacon data if it is newer.
+			if b.Segment.Info.Timestamp.After(meta.InfoTime) {
+				err := te.updateExistingBeacon(ctx, b, usage, meta.RowID, time.Now())
+				if err != nil {
+					return err
+				}
+				ret.Updated = 1
+			}
+			return nil
+		}
+		// Insert new beacon.
+		if err := insertNewBeacon(ctx, tx, b, usage, time.Now()); err != nil {
+			return err
+		}
+		ret.Inserted = 1
+		return nil
 	})
 	if err != nil {
-		return ret, err
+		return beacon.InsertStats{}, err
 	}
-
-	ret.Inserted = 1
 	return ret, nil
-
 }
 
 func (e *executor) GetBeacons(
